@@ -116,8 +116,12 @@ func (c *Ctx) bindSkeleton(s string, e *TableEntry) string {
 				name = sv
 			}
 		}
+		if sv, ok := constStringVal(c.resolve(e.Bound[i], nil)); ok {
+			name = sv // a constant string bound into the closure is spliced as it is
+		}
 		s = strings.ReplaceAll(s, "{^"+fv.Name()+":%s}", name)
 		s = strings.ReplaceAll(s, "{^"+fv.Name()+":%v}", name)
+		s = strings.ReplaceAll(s, "{^"+fv.Name()+"}", name)
 	}
 	return s
 }
@@ -352,6 +356,14 @@ func ruleSQLVOCAB(c *Ctx, r *Report) {
 		for _, bnd := range e.Bound {
 			bk := c.key(bnd, nil)
 			key := "binding|" + op
+			if sv, ok := constStringVal(c.resolve(bnd, nil)); ok {
+				if bad := vocabCheck(sv); len(bad) > 0 {
+					r.bad(rule, key, c.instrPos(e.Pos), fmt.Sprintf("the render closure for %s is bound to the constant %q, which is spliced into the SQL text; %q is outside the allowed vocabulary", op, sv, bad))
+				} else {
+					r.ok(rule, key, c.instrPos(e.Pos), fmt.Sprintf("constant %q in vocabulary", sv))
+				}
+				continue
+			}
 			if bk == "expr.And" || bk == "expr.Or" || bk == "expr.Not" {
 				r.ok(rule, key, c.instrPos(e.Pos), bk)
 			} else {
